@@ -1,6 +1,6 @@
 \* spec -> code: every edge of core T up to depth 3, with the observation of every state (workers 1)
 CONSTANTS NL = 5  NA0 = 4  NP0 = 1  NF = 2  MB = 3  MaxCascade = 3  MaxLoop = 3  MaxChain = 2  MaxLevel = 3  ReAdd = TRUE
-CONSTANTS Layout <- LayoutT  Place <- PlaceT  SFlagSets <- FlagsGPS  TrackSet <- Both  DbSet <- Both  Go <- GoBounded
+CONSTANTS Layout <- LayoutT  Place <- PlaceT  SFlagSets <- FlagsTe  TrackSet <- Both  DbSet <- Both  Go <- GoBounded
 ACTION_CONSTRAINT Emit
 INVARIANT EmitState
 INIT Init
